@@ -66,6 +66,17 @@ def gen_case(rng):
     b = G.gen_bind(rng, dict(reg, sig=reg.get('innerSig') or reg['sig']), rng.choice(scopes))
     if b:
       body.append(b)
+  if rng.random() < 0.3:
+    # a parameter whose binding is the marker itself (`f.x = %gin.REQUIRED`, or the object bound through the API): such a
+    # binding supplies nothing - the call fails naming the parameter unless the caller supplies a value
+    for _ in range(rng.randint(1, 2)):
+      reg = rng.choice(regs)
+      b = G.gen_bind(rng, dict(reg, sig=reg.get('innerSig') or reg['sig']), rng.choice(scopes))
+      if b:
+        # (the object itself, bound through the API; `%gin.REQUIRED` in config text evaluates to it when the call is made,
+        # which the evaluating layer of the model covers: C05 / C20)
+        b.update(val=G.REQ, _form=rng.choice(['tuple', 'str', 'list']), block=False)
+        body.append(b)
   for _ in range(rng.randint(1, 4)):
     reg = rng.choice(regs)
     tgt = rng.choice(scopes)
@@ -202,7 +213,9 @@ def oracle(case, impl):
             valid_scope = False
         if not valid_scope or not all(G_valid(s) for s in scope):
           continue
-      ov = _overlay(binds, reg['_selector'], scope)
+      ov_all = _overlay(binds, reg['_selector'], scope)
+      is_marker = lambda v: v == G.REQ or (isinstance(v, dict) and v.get('const') == 'gin.REQUIRED')   # noqa: E731
+      ov = {n: v for n, v in ov_all.items() if not is_marker(v)}
       if any(v == G.REQ for v in op['args'][len(posnames):]):
         if res.get('err') != 'ValueError' or res.get('ran'):
           return f'op {k}: REQUIRED in *args position must be a ValueError before anything runs, got {res}'
@@ -213,7 +226,10 @@ def oracle(case, impl):
                 and p[0] not in given_pos and p[0] not in given_kw]
       if set(given_pos) & set(given_kw):
         continue  # caller error (multiple values); a TypeError either way
-      missing = [n for n in marked + sigreq if n not in ov]
+      # a binding that is the marker itself supplies nothing and is reported, unless the caller supplies a value
+      bound_marker = [n for n, v in ov_all.items() if is_marker(v)
+                      and not (n in given_pos and given_pos[n] != G.REQ) and not (n in given_kw and given_kw[n] != G.REQ)]
+      missing = bound_marker + [n for n in marked + sigreq if n not in ov and n not in bound_marker]
       if missing:
         want = [n for n in order if n in missing] + [n for n in missing if n not in order]
         if res.get('err') != 'RuntimeError' or res.get('ran') or res.get('missing') != want:
